@@ -589,6 +589,11 @@ class TLSConnection(TLSRecordLayer):
             self._recordLayer.encryptThenMAC = True
 
         if serverHello.getExtension(ExtensionType.extended_master_secret):
+            if self.version == (3, 0):
+                for result in self._sendError(
+                        AlertDescription.illegal_parameter,
+                        "Extended master secret is not defined for SSLv3"):
+                    yield result
             self.extendedMasterSecret = True
 
         # If the server elected to resume the session, it is handled here.
